@@ -196,6 +196,30 @@ pub fn run(g: &mut Global) {
     if g.tier == Tier::Thorough {
         g.random("long", 800, &|| strategy(4000, 10000), &check);
     }
+    // one composite instance (and its hand-wired parts) for 140 000 inputs: periods 1, 2 and 3 turn
+    // their rings more than 2^16 times, which is where occasional re-synchronisations would fire
+    let seed = g.seed;
+    let lk: [(Kind, bool); 10] = [(Kind::Bb, true), (Kind::SlowStoch, true), (Kind::SlowStoch, false), (Kind::Atr, false), (Kind::Macd, true), (Kind::Ppo, true), (Kind::Kc, false), (Kind::Kc, true), (Kind::Ce, false), (Kind::Cci, false)];
+    g.exhaustive(
+        "long_turns",
+        10 * 3 * g.tier.pick(1, 3),
+        &move |i| {
+            let (kind, scalar) = lk[(i % 10) as usize];
+            let n = ((i / 10) % 3) as usize + 1;
+            let regime = [0usize, 3, 4][((i / 30) % 3) as usize];
+            let mut s = seed ^ (i + 21).wrapping_mul(0xA0761D6478BD642F);
+            let sd = splitmix(&mut s);
+            let mut gen = crate::props::c13::Gen::new(sd, regime, [0.37, 85.18, 1e4][(sd % 3) as usize], 2 + n);
+            let len = 70_000 * n;
+            let cfg = crate::hist::cfg_small(kind, n);
+            if scalar {
+                Case { cfg, scalar: true, xs: (0..len).map(|_| X(gen.next())).collect(), bars: vec![] }
+            } else {
+                Case { cfg, scalar: false, xs: vec![], bars: (0..len).map(|_| gen.bar()).collect() }
+            }
+        },
+        &check,
+    );
     if g.tier == Tier::Thorough {
         g.fuzz_stage("ops_pred", Some(3), 600_000, "random", &|b| crate::fuzzdec::decode_c15(b), &check);
     }
